@@ -34,6 +34,7 @@ import (
 	"github.com/ollama/ollama/discover"
 	"github.com/ollama/ollama/fs/ggml"
 	"github.com/ollama/ollama/llm"
+	"github.com/ollama/ollama/types/model"
 	"github.com/ollama/ollama/zzverif"
 )
 
@@ -509,6 +510,9 @@ type vc17H struct {
 	pcache map[string][]vc17Call
 	rt     *vc17RT
 	climit int
+	groupN int  // groups run so far (the early-reply shapes run on every 6th group and on every fault group)
+	all    bool // replay: every shape
+	lcN    int  // classified load faults generated so far
 }
 
 type vc17RT struct {
@@ -662,6 +666,7 @@ type vc17Group struct {
 	nz     bool   // non-final chunks carry (irrelevant) non-zero counts
 	fmtJS  bool   // requests ask for format json
 	fault  string // none | load | detok | tok: runner method that fails outside Completion
+	lclass string // fault=load: class of the scheduler's error ("" other | cap | cancel | queue | notexist)
 	conv   string // conversation of the ctx chat shapes (letters s u a A t); "" = uau
 }
 
@@ -671,7 +676,7 @@ func (g vc17Group) String() string {
 		ps[i] = vc17Enc(p)
 	}
 	return fmt.Sprintf("grp pieces=%s mask=%d end=%s k=%d doneB=%s pec=%d ec=%d reason=%d nz=%s fmt=%s fault=%s conv=%s",
-		strings.Join(ps, ","), g.mask, g.end, g.k, vc17B(g.doneB), g.pec, g.ec, g.reason, vc17B(g.nz), vc17B(g.fmtJS), g.flt(), g.convOf(vc17Shape{ctx: true}))
+		strings.Join(ps, ","), g.mask, g.end, g.k, vc17B(g.doneB), g.pec, g.ec, g.reason, vc17B(g.nz), vc17B(g.fmtJS), g.fltLine(), g.convOf(vc17Shape{ctx: true}))
 }
 
 func (g vc17Group) flt() string {
@@ -681,13 +686,74 @@ func (g vc17Group) flt() string {
 	return g.fault
 }
 
+// fltLine: the fault as printed in the group line (load/<class> for a classified scheduler error)
+func (g vc17Group) fltLine() string {
+	if g.fault == "load" && g.lclass != "" {
+		return "load/" + g.lclass
+	}
+	return g.flt()
+}
+
+// the scheduler's error for a load fault, by class, and what handleScheduleError must make of it
+func (g vc17Group) loadError() error {
+	switch g.lclass {
+	case "cap":
+		return fmt.Errorf("%w: verif", errCapabilities)
+	case "cancel":
+		return fmt.Errorf("load: %w", context.Canceled)
+	case "queue":
+		return ErrMaxQueue
+	case "notexist":
+		return fmt.Errorf("stat blob: %w", os.ErrNotExist)
+	}
+	return errors.New(vc17LoadMsg)
+}
+
+func (g vc17Group) loadExpect(s vc17Shape) (int, string) {
+	switch g.lclass {
+	case "cap":
+		return 400, "does not support: verif"
+	case "cancel":
+		return 499, "request canceled"
+	case "queue":
+		return 503, "server busy, please try again.  maximum pending requests exceeded"
+	case "notexist":
+		return 404, fmt.Sprintf("model %q not found, try pulling it first", s.model)
+	}
+	return 500, vc17LoadMsg
+}
+
+// expectPre: what the handler must answer BEFORE the runner is started, in the order of the code:
+// status+message of a failure, or the done_reason of an early reply ("load"/"unload"); 0,"","" = goes on
+func (g vc17Group) expectPre(s vc17Shape) (int, string, string) {
+	gen := s.ep == "gen" || s.ep == "oacmpl" || s.ep == "cgen"
+	if s.empty && s.ka0 {
+		return 0, "", "unload"
+	}
+	if gen && s.raw && s.ctx {
+		return 400, "raw mode does not support template, system, or context", ""
+	}
+	if !gen && s.noToolSupport() {
+		return 400, model.ParseName(s.model).String() + " does not support tools", ""
+	}
+	if g.flt() == "load" {
+		st, msg := g.loadExpect(s)
+		return st, msg, ""
+	}
+	if s.empty {
+		return 0, "", "load"
+	}
+	return 0, "", ""
+}
+
 // expectErr: the error the request must report (""= none), from which method fails and which
 // methods the request shape makes the handler call
 func (g vc17Group) expectErr(s vc17Shape) string {
 	gen := s.ep == "gen" || s.ep == "oacmpl" || s.ep == "cgen"
+	if _, msg, early := g.expectPre(s); msg != "" || early != "" {
+		return msg
+	}
 	switch g.flt() {
-	case "load":
-		return vc17LoadMsg
 	case "detok":
 		if gen && s.ctx {
 			return vc17DetokMsg
@@ -734,7 +800,7 @@ func vc17ParseGroup(line string) (vc17Group, error) {
 	g.reason, _ = strconv.Atoi(kv["reason"])
 	g.nz = kv["nz"] == "1"
 	g.fmtJS = kv["fmt"] == "1"
-	g.fault = kv["fault"]
+	g.fault, g.lclass, _ = strings.Cut(kv["fault"], "/")
 	g.conv = kv["conv"]
 	return g, nil
 }
@@ -792,12 +858,26 @@ type vc17Shape struct {
 	usage  bool
 	model  string
 	ctx    bool // generate: the request supplies `context` (Detokenize is called); chat: earlier turns (chatPrompt calls Tokenize)
+	empty  bool // generate: prompt ""; chat: no messages
+	ka0    bool // keep_alive: 0
 }
+
+// tools requested from the model whose template cannot render them
+func (s vc17Shape) noToolSupport() bool { return s.tools && s.model == vc17Plain }
+
+// pre: the request is answered before the runner is started whatever the runner would do
+func (s vc17Shape) pre() bool { return s.empty || s.noToolSupport() || (s.raw && s.ctx) }
 
 func (s vc17Shape) String() string {
 	r := fmt.Sprintf("%s/s%d/r%s/t%s/u%s/%s", s.ep, s.stream, vc17B(s.raw), vc17B(s.tools), vc17B(s.usage), s.model)
 	if s.ctx {
 		r += "/ctx"
+	}
+	if s.empty {
+		r += "/empty"
+	}
+	if s.ka0 {
+		r += "/ka0"
 	}
 	return r
 }
@@ -835,6 +915,20 @@ var vc17Shapes = []vc17Shape{
 	{ep: "cchat", stream: 1, tools: true, model: vc17Tools}, {ep: "cchat", stream: 0, tools: true, model: vc17Tools},
 	{ep: "cchat", stream: 1, ctx: true, model: vc17Plain},
 	{ep: "cchat", stream: 1, tools: true, ctx: true, model: vc17Tools}, {ep: "cchat", stream: 0, tools: true, ctx: true, model: vc17Tools},
+	// requests answered before the runner is started (run on every 6th group and on every fault group)
+	{ep: "gen", stream: 1, empty: true, model: vc17Plain}, {ep: "gen", stream: 0, empty: true, model: vc17Plain},
+	{ep: "gen", stream: 1, empty: true, ka0: true, model: vc17Plain}, {ep: "gen", stream: 0, empty: true, ka0: true, model: vc17Plain},
+	{ep: "gen", stream: 1, raw: true, ctx: true, model: vc17Plain}, {ep: "gen", stream: 0, raw: true, ctx: true, model: vc17Plain},
+	{ep: "gen", stream: 2, raw: true, ctx: true, empty: true, model: vc17Plain},
+	{ep: "chat", stream: 1, empty: true, model: vc17Plain}, {ep: "chat", stream: 0, empty: true, model: vc17Plain},
+	{ep: "chat", stream: 1, empty: true, ka0: true, model: vc17Tools}, {ep: "chat", stream: 0, empty: true, ka0: true, model: vc17Tools},
+	{ep: "chat", stream: 1, tools: true, model: vc17Plain}, {ep: "chat", stream: 0, tools: true, model: vc17Plain},
+	{ep: "chat", stream: 2, tools: true, empty: true, model: vc17Plain}, {ep: "chat", stream: 1, tools: true, empty: true, ka0: true, model: vc17Plain},
+	{ep: "oachat", stream: 1, tools: true, model: vc17Plain}, {ep: "oachat", stream: 0, tools: true, model: vc17Plain},
+	{ep: "oacmpl", stream: 1, empty: true, model: vc17Plain}, {ep: "oacmpl", stream: 0, empty: true, model: vc17Plain},
+	{ep: "oacmpl", stream: 1, usage: true, empty: true, model: vc17Plain},
+	{ep: "cgen", stream: 1, empty: true, model: vc17Plain}, {ep: "cgen", stream: 0, empty: true, ka0: true, model: vc17Plain},
+	{ep: "cchat", stream: 1, empty: true, model: vc17Plain}, {ep: "cchat", stream: 1, tools: true, model: vc17Plain},
 }
 
 // result of one request
@@ -877,6 +971,12 @@ func (h *vc17H) body(s vc17Shape, g vc17Group) []byte {
 	switch s.ep {
 	case "gen":
 		m["prompt"] = "Why is the sky blue?"
+		if s.empty {
+			m["prompt"] = ""
+		}
+		if s.ka0 {
+			m["keep_alive"] = 0
+		}
 		if s.raw {
 			m["raw"] = true
 		}
@@ -892,6 +992,9 @@ func (h *vc17H) body(s vc17Shape, g vc17Group) []byte {
 		}
 	case "chat":
 		m["messages"] = vc17Msgs(s, g, false)
+		if s.ka0 {
+			m["keep_alive"] = 0
+		}
 		if s.tools {
 			m["tools"] = vc17ToolDefs
 		}
@@ -916,6 +1019,9 @@ func (h *vc17H) body(s vc17Shape, g vc17Group) []byte {
 		}
 	case "oacmpl":
 		m["prompt"] = "Why is the sky blue?"
+		if s.empty {
+			m["prompt"] = ""
+		}
 		if s.usage {
 			m["stream_options"] = map[string]any{"include_usage": true}
 		}
@@ -954,12 +1060,15 @@ func (s vc17Shape) hist(g vc17Group) bool {
 	if s.ep == "gen" || s.ep == "oacmpl" || s.ep == "cgen" {
 		return s.ctx
 	}
-	return len(g.convOf(s)) >= 2
+	return !s.empty && len(g.convOf(s)) >= 2
 }
 
 // vc17Msgs renders the conversation for the native API (openai=false) or /v1/chat/completions
 func vc17Msgs(s vc17Shape, g vc17Group, openai bool) []map[string]any {
-	var out []map[string]any
+	out := []map[string]any{}
+	if s.empty {
+		return out
+	}
 	conv := g.convOf(s)
 	for i, c := range conv {
 		switch c {
@@ -1009,6 +1118,12 @@ func (h *vc17H) request(s vc17Shape, g vc17Group) vc17Res {
 		var err error
 		if s.ep == "cgen" {
 			greq := &api.GenerateRequest{Model: s.model, Prompt: "Why is the sky blue?", Stream: stream, Raw: s.raw, Format: format}
+			if s.empty {
+				greq.Prompt = ""
+			}
+			if s.ka0 {
+				greq.KeepAlive = &api.Duration{}
+			}
 			if g.fmtJS {
 				greq.Options = vc17Options
 				if !s.raw {
@@ -1027,6 +1142,9 @@ func (h *vc17H) request(s vc17Shape, g vc17Group) vc17Res {
 				h.t.Fatal(err)
 			}
 			req := &api.ChatRequest{Model: s.model, Messages: cmsgs, Stream: stream, Format: format}
+			if s.ka0 {
+				req.KeepAlive = &api.Duration{}
+			}
 			if g.fmtJS {
 				req.Options = vc17Options
 			}
@@ -1084,7 +1202,7 @@ func (h *vc17H) request(s vc17Shape, g vc17Group) vc17Res {
 		}
 	}
 	// Completion runs exactly once for a request that gets as far as streaming / replying 200
-	if n := h.run.calls - before; n > 1 || (n != 1 && (res.client && res.cerr == "" || !res.client && res.status == 200)) {
+	if n := h.run.calls - before; n > 1 || (s.pre() && n != 0) || (!s.pre() && n != 1 && (res.client && res.cerr == "" || !res.client && res.status == 200)) {
 		res.evs = append(res.evs, vc17Ev{tag: fmt.Sprintf("?runner-calls=%d", n)})
 	}
 	return res
@@ -1094,9 +1212,16 @@ func (h *vc17H) op(s vc17Shape, g vc17Group, chunks []llm.CompletionResponse, ru
 	var b strings.Builder
 	ep := s.ep
 	fmt.Fprintf(&b, "run %d %s %s %s %s %s %s %d ", zzverif.EnvInt("VERIF_C17_VARIANT", 0), ep, vc17B(s.streaming()), vc17B(s.raw), vc17B(s.tools), vc17B(s.usage), vc17B(s.hist(g)), h.run.promptLen)
+	// the request as far as the handlers look at it before the runner is started: empty, keep_alive 0, tools without
+	// template support, class of the scheduler's error, model name as spelled and in canonical form (real ParseName)
+	lclass := g.lclass
+	if lclass == "" {
+		lclass = "other"
+	}
+	fmt.Fprintf(&b, "%s %s %s %s %s %s ", vc17B(s.empty), vc17B(s.ka0), vc17B(s.noToolSupport()), lclass, zzverif.Hex([]byte(s.model)), zzverif.Hex([]byte(model.ParseName(s.model).String())))
 	switch g.flt() {
 	case "load":
-		b.WriteString("load:" + zzverif.Hex([]byte(vc17LoadMsg)) + " ")
+		b.WriteString("load:" + zzverif.Hex([]byte(g.loadError().Error())) + " ")
 	case "detok":
 		b.WriteString("detok:" + zzverif.Hex([]byte(vc17DetokMsg)) + " ")
 	case "tok":
@@ -1168,7 +1293,7 @@ func (h *vc17H) runGroup(g vc17Group) {
 	h.run.loadErr, h.run.tokErr, h.run.detokErr = nil, nil, nil
 	switch g.flt() {
 	case "load":
-		h.run.loadErr = errors.New(vc17LoadMsg)
+		h.run.loadErr = g.loadError()
 	case "tok":
 		h.run.tokErr = errors.New(vc17TokMsg)
 	case "detok":
@@ -1176,7 +1301,12 @@ func (h *vc17H) runGroup(g vc17Group) {
 	}
 	table, early := h.table(chunks)
 	results := map[string]vc17Res{}
+	h.groupN++
+	runPre := h.all || g.fault != "" || h.groupN%6 == 0
 	for _, s := range vc17Shapes {
+		if s.pre() && !runPre {
+			continue
+		}
 		res := h.request(s, g)
 		tbl := "0"
 		if s.tools {
@@ -1189,7 +1319,10 @@ func (h *vc17H) runGroup(g vc17Group) {
 	}
 	h.out.Count("groups")
 	h.out.Count("end_" + g.end)
-	h.out.Count("fault_" + g.flt())
+	h.out.Count("fault_" + g.fltLine())
+	if runPre {
+		h.out.Count("groups_with_prestream_shapes")
+	}
 	if g.doneB {
 		h.out.Count("done_chunk_has_content")
 	}
@@ -1282,8 +1415,16 @@ func (h *vc17H) monitors(g vc17Group, chunks []llm.CompletionResponse, results m
 	finish := func(reason int) string { return llm.DoneReason(reason).String() }
 
 	for _, s := range vc17Shapes {
+		if _, have := results[s.String()]; !have {
+			continue // a pre-stream shape not run for this group
+		}
 		res := get(s)
 		exp := g.expectErr(s)
+		preStatus, preMsg, early := g.expectPre(s)
+		wantStatus := 500 // of a failed request
+		if preMsg != "" {
+			wantStatus = preStatus
+		}
 		for _, e := range res.evs {
 			if strings.HasPrefix(e.tag, "?") {
 				fail("malformed-response", s, e.tag)
@@ -1295,8 +1436,8 @@ func (h *vc17H) monitors(g vc17Group, chunks []llm.CompletionResponse, results m
 		if native && s.streaming() {
 			a := vc17Aggregate(res.evs)
 			// 200 + NDJSON, or (failure before anything was streamed) one 500 error body
-			if res.status != 200 && !(res.status == 500 && len(res.evs) == 1 && res.evs[0].tag == "e") {
-				fail("stream-status", s, fmt.Sprintf("status=%d bodies=%d", res.status, len(res.evs)))
+			if (res.status != 200 || preMsg != "") && !(res.status == wantStatus && len(res.evs) == 1 && res.evs[0].tag == "e") {
+				fail("stream-status", s, fmt.Sprintf("status=%d bodies=%d want-status=%d", res.status, len(res.evs), wantStatus))
 			}
 			if a.finals != 1 || !a.lastFin {
 				fail("one-final", s, fmt.Sprintf("terminal-events=%d last-is-terminal=%v events=%d", a.finals, a.lastFin, len(res.evs)))
@@ -1329,15 +1470,15 @@ func (h *vc17H) monitors(g vc17Group, chunks []llm.CompletionResponse, results m
 			}
 			e := res.evs[0]
 			if exp != "" {
-				if res.status != 500 || e.tag != "e" || !vc17ErrIs(e.text, exp) {
-					fail("error-lost", s, fmt.Sprintf("status=%d body=%s", res.status, e))
+				if res.status != wantStatus || e.tag != "e" || !vc17ErrIs(e.text, exp) {
+					fail("error-lost", s, fmt.Sprintf("status=%d body=%s want-status=%d", res.status, e, wantStatus))
 				}
 			} else {
 				if res.status != 200 || e.tag == "e" {
 					fail("spurious-error", s, fmt.Sprintf("status=%d body=%s", res.status, e))
 				}
 				// the reply is the model output, whatever the split
-				if g.end == "ok" {
+				if g.end == "ok" && early == "" {
 					wantCalls := []vc17Call(nil)
 					if s.tools {
 						wantCalls = h.parse(want)
@@ -1353,6 +1494,25 @@ func (h *vc17H) monitors(g vc17Group, chunks []llm.CompletionResponse, results m
 						fail("once-final", s, "got "+vc17Fin(&e)+fmt.Sprintf(" want done reason=%q pec=%d ec=%d", finish(g.reason), g.pec, g.ec))
 					}
 				}
+			}
+		}
+		// --- a request answered before the runner is started: one final message (load / unload) or one error
+		// body, identical with and without stream
+		if native && early != "" {
+			ok := res.status == 200 && len(res.evs) == 1
+			if ok {
+				e := res.evs[0]
+				ok = (e.tag == "g" || e.tag == "c") && e.text == "" && len(e.calls) == 0 && e.done && e.reason == early && e.pec == 0 && e.ec == 0 && e.named == "1" && (e.ctx == "-" || e.ctx == "")
+			}
+			if !ok {
+				fail("early-reply", s, fmt.Sprintf("status=%d want one final message with done_reason %q, got %s", res.status, early, res.canon()))
+			}
+		}
+		if native && s.streaming() && s.pre() {
+			o := s
+			o.stream = 0
+			if once, have := results[o.String()]; have && once.canon() != res.canon() {
+				fail("prestream-same", s, fmt.Sprintf("streamed: %s; non-streamed: %s", res.canon(), once.canon()))
 			}
 		}
 		// --- stream concatenation == non-stream reply (same endpoint, same request otherwise)
@@ -1456,8 +1616,8 @@ func (h *vc17H) monitors(g vc17Group, chunks []llm.CompletionResponse, results m
 				}
 				e := res.evs[0]
 				if exp != "" {
-					if res.status != 500 || e.tag != "E" || !vc17ErrIs(e.text, exp) {
-						fail("openai-error-lost", s, fmt.Sprintf("status=%d body=%s", res.status, e))
+					if res.status != wantStatus || e.tag != "E" || !vc17ErrIs(e.text, exp) {
+						fail("openai-error-lost", s, fmt.Sprintf("status=%d body=%s want-status=%d", res.status, e, wantStatus))
 					}
 					continue
 				}
@@ -1508,7 +1668,7 @@ func (h *vc17H) monitors(g vc17Group, chunks []llm.CompletionResponse, results m
 			if !((dones == 1 && lastDone && errsOa == 0) || (dones == 0 && errsOa == 1)) {
 				fail("openai-one-final", s, fmt.Sprintf("[DONE]=%d last-is-[DONE]=%v error-objects=%d events=%d", dones, lastDone, errsOa, len(res.evs)))
 			}
-			if exp != "" && errsOa != 1 {
+			if exp != "" && (errsOa != 1 || (preMsg != "" && res.status != preStatus)) {
 				fail("openai-error-lost", s, fmt.Sprintf("error-objects=%d status=%d", errsOa, res.status))
 			}
 			if text != na.text || vc17Calls(calls) != vc17Calls(na.calls) {
@@ -1545,6 +1705,23 @@ func (h *vc17H) monitors(g vc17Group, chunks []llm.CompletionResponse, results m
 func (h *vc17H) branches(s vc17Shape, g vc17Group, res vc17Res) {
 	c := func(name string) { h.out.Count("br_" + name) }
 	evs := res.evs
+	if s.pre() {
+		fam := map[string]string{"gen": "gen", "oacmpl": "gen", "cgen": "gen", "chat": "chat", "oachat": "chat", "cchat": "chat"}[s.ep]
+		switch {
+		case res.client && res.cerr != "":
+			c("pre_client_error")
+		case res.client:
+			c("pre_client_final_message")
+		case res.status != 200:
+			c(fmt.Sprintf("pre_%s_status_%d", fam, res.status))
+		case len(evs) >= 1 && (evs[0].tag == "g" || evs[0].tag == "c"):
+			c("pre_" + fam + "_reply_" + evs[0].reason)
+		case len(evs) >= 1 && (evs[0].tag == "k" || evs[0].tag == "t"):
+			c("pre_openai_stream_of_single_body")
+		case len(evs) == 1:
+			c("pre_openai_once_of_single_body")
+		}
+	}
 	switch s.ep {
 	case "gen", "chat":
 		if s.streaming() {
@@ -1897,6 +2074,10 @@ func (h *vc17H) runText(r *zzverif.Rng, pieces []string, exhaustiveMax, samples 
 				x.fault = f
 				extra = append(extra, x)
 			}
+			lc := base
+			lc.fault, lc.lclass = "load", []string{"cap", "cancel", "queue", "notexist"}[h.lcN%4] // every class in turn
+			h.lcN++
+			extra = append(extra, lc)
 			for k := 0; k <= nc; k++ {
 				e, s := base, base
 				e.fault, e.end, e.k = "tok", "err", k
@@ -1908,7 +2089,10 @@ func (h *vc17H) runText(r *zzverif.Rng, pieces []string, exhaustiveMax, samples 
 			extra = append(extra, b)
 		} else {
 			x := base
-			x.fault = zzverif.Pick(r, []string{"tok", "tok", "detok", "load"})
+			x.fault = zzverif.Pick(r, []string{"tok", "tok", "detok", "load", "load"})
+			if x.fault == "load" {
+				x.lclass = zzverif.Pick(r, []string{"", "cap", "cancel", "queue", "notexist"})
+			}
 			switch r.Intn(8) {
 			case 0:
 				x.end, x.k = "err", r.Range(0, nc)
@@ -1942,6 +2126,7 @@ func TestVerifC17(t *testing.T) {
 		if err != nil {
 			t.Fatal(err)
 		}
+		h.all = true
 		h.runGroup(g)
 		return
 	}
@@ -1995,6 +2180,46 @@ func TestVerifC17Table(t *testing.T) {
 	// the two fixed error texts the model contains: the handlers' errIncompleteResponse and the scanner's ErrTooLong
 	consts := fmt.Sprintf("incomplete %s\ntoolong %s\n", zzverif.Hex([]byte(errIncompleteResponse.Error())), zzverif.Hex([]byte(bufio.ErrTooLong.Error())))
 	if err := os.WriteFile(zzverif.OutDir()+"/consts.txt", []byte(consts), 0o644); err != nil {
+		t.Fatal(err)
+	}
+}
+
+// TestVerifC17Variant: Tie 1 — which of the repaired behaviours the tree under test shows, probed on the real
+// handlers / writers / client with the findings' own inputs (regenerated into Generated/C17_Variant.lean and
+// compared with the variant the theorems are read for by Tie.C17.tree_variant)
+func TestVerifC17Variant(t *testing.T) {
+	h := vc17Setup(t)
+	defer h.out.Close()
+	run := func(g vc17Group, s vc17Shape) vc17Res {
+		chunks, runErr := g.chunks()
+		h.run.chunks, h.run.err = chunks, runErr
+		h.run.loadErr, h.run.tokErr, h.run.detokErr = nil, nil, nil
+		return h.request(s, g)
+	}
+	a, b1, b2 := `{"name":"a","arguments":{}}`, `{"name":"b",`, `"arguments":{}}`
+	var out strings.Builder
+	put := func(name string, v bool) { fmt.Fprintf(&out, "%s %s\n", name, vc17B(v)) }
+	// F17a: a parsable boundary prefix — the repaired streaming tool path still delivers both calls
+	res := run(vc17Group{pieces: []string{a + b1, b2}, mask: 1, end: "ok", pec: 1, ec: 1}, vc17Shape{ep: "chat", stream: 1, tools: true, model: vc17Tools})
+	put("toolsStream", len(vc17Aggregate(res.evs).calls) == 2)
+	// F17b: the non-streamed reply numbers its calls
+	res = run(vc17Group{pieces: []string{a + b1 + b2}, end: "ok", pec: 1, ec: 1}, vc17Shape{ep: "chat", stream: 0, tools: true, model: vc17Tools})
+	put("toolsIndex", len(res.evs) == 1 && vc17Idx(res.evs[0].calls) == "0,1")
+	// F17c: a runner error mid-stream is an error event on the OpenAI stream
+	res = run(vc17Group{pieces: []string{"Hel"}, end: "err", k: 1}, vc17Shape{ep: "oachat", stream: 1, model: vc17Plain})
+	oaErr := false
+	for _, e := range res.evs {
+		oaErr = oaErr || e.tag == "E"
+	}
+	put("oaErr", oaErr)
+	// F17d: a run that ends without a done chunk is reported
+	res = run(vc17Group{pieces: []string{"Hel"}, end: "silent", k: 1}, vc17Shape{ep: "gen", stream: 1, model: vc17Plain})
+	put("incomplete", len(vc17Aggregate(res.evs).errs) == 1)
+	// F17e: api.Client returns the scanner's error for a line it cannot hold
+	long := `"` + strings.Repeat("0123456789abcdef", (h.climit+1000)/16+1)[:h.climit+1000] + `"`
+	res = run(vc17Group{pieces: []string{long}, end: "ok", pec: 1, ec: 1}, vc17Shape{ep: "cgen", stream: 0, model: vc17Plain})
+	put("clientFixed", res.cerr != "")
+	if err := os.WriteFile(zzverif.OutDir()+"/variant.txt", []byte(out.String()), 0o644); err != nil {
 		t.Fatal(err)
 	}
 }
